@@ -240,6 +240,27 @@ def build(om, hist):
     return app, log
 
 
+class _VerbStr(str):
+    """a str subclass (verbs often come out of configuration objects or enumerations that ARE strings)"""
+
+
+_verb_enums = {}
+
+
+def verb_arg(v, op):
+    """the verb as the application passes it: a plain str, a str subclass or a member of a str-mixin Enum - a function of the operation"""
+    import enum
+    import zlib
+    k = zlib.crc32(repr((op, v)).encode()) % 3
+    if k == 0:
+        return v
+    if k == 1:
+        return _VerbStr(v)
+    if v not in _verb_enums:
+        _verb_enums[v] = enum.Enum('Verb', {'MEMBER': v}, type=str).MEMBER
+    return _verb_enums[v]
+
+
 def apply_real(app, op):
     kind, rule = op[0], op[1]
     try:
@@ -257,6 +278,7 @@ def apply_real(app, op):
                 else:
                     short(rule, callback=h)     # (a positional callback collides with the bound method= of the shortcut: TypeError, not judged)
                 return 'ok'
+            spec = [verb_arg(v, op) for v in spec] if isinstance(spec, list) else verb_arg(spec, op)
             app.route(rule, spec, h, overwrite=op[3])
             return 'ok'
         route = app.router[{rule}]
